@@ -675,7 +675,7 @@ def run(ctx):
     ctx.extra["placement_histories_total"] = len(pairs)
     if not ctx.thorough():
         rng.shuffle(pairs)          # quick tier: a seeded sample of the full product
-    t_end = ctx.elapsed() + ctx.pick(70.0, 700.0)
+    t_end = ctx.elapsed() + ctx.pick(70.0, 450.0)
     done = 0
     for cfg, ops in pairs:
         if ctx.elapsed() > t_end:
@@ -683,7 +683,7 @@ def run(ctx):
         run_data(ctx, lc, cfg, ops, "placement")
         done += 1
     ctx.extra["placement_histories_run"] = done
-    t_end = ctx.elapsed() + ctx.pick(25.0, 200.0)
+    t_end = ctx.elapsed() + ctx.pick(25.0, 150.0)
     for cfg in data_cfgs(rng, ctx.pick(40, 400)):
         for ops in fault_histories(rng, 6):
             if ctx.elapsed() > t_end:
